@@ -30,9 +30,49 @@ use vmodel::session::Session;
 use vmodel::setup::{self, Backend, Config};
 use vmodel::snapshot::{self, diff_folder};
 
-const OPS: [&str; 13] = [
-    "create", "update", "delete", "move", "rename", "flags", "describe", "create_folder", "delete_folder", "compact", "change_folder_pw", "file_create", "archive",
+const OPS: [&str; 15] = [
+    "create", "update", "delete", "move", "rename", "flags", "describe", "create_folder", "delete_folder", "compact", "change_folder_pw", "file_create", "archive", "merge", "force_merge",
 ];
+
+/// Records of a folder log in a form that travels in the child's spec.
+async fn folder_records_json(a: &sos_account::LocalAccount, f: &VaultId) -> Result<Vec<Value>, String> {
+    use futures::StreamExt;
+    use sos_core::events::EventLog;
+    use sos_sync::StorageEventLogs;
+    let log = a.folder_log(f).await.map_err(|e| e.to_string())?;
+    let log = log.read().await;
+    let stream = log.record_stream(false).await;
+    futures::pin_mut!(stream);
+    let mut out = vec![];
+    while let Some(r) = stream.next().await {
+        let r = r.map_err(|e| e.to_string())?;
+        out.push(json!({"t": time::OffsetDateTime::from(r.time().clone()).unix_timestamp_nanos().to_string(), "c": hex::encode(r.commit().0), "b": hex::encode(r.event_bytes())}));
+    }
+    Ok(out)
+}
+
+fn records_from_json(v: &Value) -> Vec<sos_core::events::EventRecord> {
+    v.as_array()
+        .map(|a| {
+            a.iter()
+                .filter_map(|r| {
+                    let t: i128 = r["t"].as_str()?.parse().ok()?;
+                    let c: [u8; 32] = hex::decode(r["c"].as_str()?).ok()?.try_into().ok()?;
+                    let b = hex::decode(r["b"].as_str()?).ok()?;
+                    Some(sos_core::events::EventRecord::new(sos_core::UtcDateTime::from(time::OffsetDateTime::from_unix_timestamp_nanos(t).ok()?), Default::default(), sos_core::commit::CommitHash(c), b))
+                })
+                .collect()
+        })
+        .unwrap_or_default()
+}
+
+fn head_proof_of(commits: &[[u8; 32]]) -> Option<sos_core::commit::CommitProof> {
+    let mut t = sos_core::commit::CommitTree::new();
+    let mut l = commits.to_vec();
+    t.append(&mut l);
+    t.commit();
+    t.head().ok()
+}
 
 fn opts(f: &VaultId) -> AccessOptions {
     AccessOptions { folder: Some(*f), ..Default::default() }
@@ -43,7 +83,8 @@ fn opts(f: &VaultId) -> AccessOptions {
 /// Child process: open the account, optionally arm a probe, run one
 /// operation described by the spec, exit.
 pub async fn child(args: &Args) -> i32 {
-    let spec: Value = match args.extra.iter().position(|a| a == "--spec").and_then(|i| args.extra.get(i + 1)).and_then(|s| serde_json::from_str(s).ok()) {
+    let from_file = args.extra.iter().position(|a| a == "--spec-file").and_then(|i| args.extra.get(i + 1)).and_then(|p| std::fs::read_to_string(p).ok());
+    let spec: Value = match from_file.or_else(|| args.extra.iter().position(|a| a == "--spec").and_then(|i| args.extra.get(i + 1)).cloned()).and_then(|s| serde_json::from_str(&s).ok()) {
         Some(v) => v,
         None => return 64,
     };
@@ -139,6 +180,30 @@ pub async fn child(args: &Args) -> i32 {
                 let r = a.create_secret(meta, secret, opts(&f)).await.map(|_| ()).map_err(|e| e.to_string());
                 let _ = std::fs::remove_file(&path);
                 r
+            }
+            "merge" | "force_merge" => {
+                use sos_core::events::patch::{CheckedPatch, FolderDiff, Patch};
+                use sos_sync::{ForceMerge, Merge, MergeOutcome};
+                let f = fid("folder").ok_or("folder")?;
+                let records = records_from_json(&spec["remote_records"]);
+                let base = spec["base_len"].as_u64().unwrap_or(0) as usize;
+                if records.len() <= base || base == 0 {
+                    return Err("remote log is not ahead".to_string());
+                }
+                let commits: Vec<[u8; 32]> = records.iter().map(|r| r.commit().0).collect();
+                let mut outcome = MergeOutcome::default();
+                if spec["op"] == "merge" {
+                    let checkpoint = head_proof_of(&commits[..base]).ok_or("proof")?;
+                    let diff = FolderDiff::new(Patch::new(records[base..].to_vec()), checkpoint, Some(sos_core::commit::CommitHash(commits[base - 1])));
+                    match a.merge_folder(&f, diff, &mut outcome).await.map_err(|e| e.to_string())? {
+                        (CheckedPatch::Success(_), _) => Ok(()),
+                        (CheckedPatch::Conflict { .. }, _) => Err("merge conflict on an agreed base".to_string()),
+                    }
+                } else {
+                    let checkpoint = head_proof_of(&commits).ok_or("proof")?;
+                    let diff = FolderDiff::new(Patch::new(records), checkpoint, None);
+                    a.force_merge_folder(&f, diff, &mut outcome).await.map_err(|e| e.to_string())
+                }
             }
             other => Err(format!("unknown op {other}")),
         }
@@ -270,7 +335,13 @@ async fn examine(dir: &Path, backend: Backend, account_id: &AccountId, passwords
 
 fn run_child(spec: &Value) -> (Option<i32>, Option<i32>, String) {
     let exe = std::env::current_exe().expect("current exe");
-    let out = Command::new(exe).arg("c13child").arg("--spec").arg(spec.to_string()).env("RUST_BACKTRACE", "0").output();
+    // the spec can carry a whole folder log: hand it over in a file next to the work directory
+    let spec_path = PathBuf::from(format!("{}.spec.json", spec["dir"].as_str().unwrap_or("spec")));
+    if std::fs::write(&spec_path, spec.to_string()).is_err() {
+        return (None, None, "cannot write spec file".into());
+    }
+    let out = Command::new(exe).arg("c13child").arg("--spec-file").arg(&spec_path).env("RUST_BACKTRACE", "0").output();
+    let _ = std::fs::remove_file(&spec_path);
     match out {
         Ok(o) => {
             use std::os::unix::process::ExitStatusExt;
@@ -382,6 +453,50 @@ pub async fn run(args: &Args, rep: &mut Reporter) {
                             continue;
                         }
                         spec["folder"] = json!(user_folders[rng.usize(user_folders.len())].to_string());
+                    }
+                    "merge" | "force_merge" => {
+                        // a second replica of the account (copy of S0) makes further edits in one
+                        // folder; its log is what the interrupted merge receives
+                        let f = pick_folder(&mut rng);
+                        let base_len = s0.get(&LogId::Folder(f)).map(|v| v.len()).unwrap_or(0);
+                        let rdir = hdir.join("remote");
+                        let _ = std::fs::remove_dir_all(&rdir);
+                        if setup::copy_dir(&s0_dir, &rdir).is_err() {
+                            continue;
+                        }
+                        let recs = match setup::open(&rdir, config.backend, &account_id, &password).await {
+                            Ok(mut o) => {
+                                let r: Result<Vec<Value>, String> = async {
+                                    let mut g = Gen::new(&mut rng);
+                                    g.allow_large = false;
+                                    let (m, sct) = g.secret_of_kind(0, 0);
+                                    let id = o.account.create_secret(m, sct, opts(&f)).await.map_err(|e| e.to_string())?.id;
+                                    let (m, sct) = g.secret_of_kind(0, 0);
+                                    o.account.update_secret(&id, m, Some(sct), opts(&f)).await.map_err(|e| e.to_string())?;
+                                    if let Some((_, victim)) = live.iter().find(|(lf, _)| *lf == f) {
+                                        o.account.delete_secret(victim, opts(&f)).await.map_err(|e| e.to_string())?;
+                                    }
+                                    o.account.rename_folder(&f, format!("Remote name {}", g.rng.token(5))).await.map_err(|e| e.to_string())?;
+                                    folder_records_json(&o.account, &f).await
+                                }
+                                .await;
+                                o.close().await;
+                                r
+                            }
+                            Err(e) => Err(e.to_string()),
+                        };
+                        let _ = std::fs::remove_dir_all(&rdir);
+                        match recs {
+                            Ok(r) if r.len() > base_len && base_len > 0 => {
+                                spec["folder"] = json!(f.to_string());
+                                spec["remote_records"] = json!(r);
+                                spec["base_len"] = json!(base_len);
+                            }
+                            other => {
+                                rep.inconclusive(&format!("cannot prepare the remote replica for {op}: {:?}", other.err()));
+                                continue;
+                            }
+                        }
                     }
                     _ => {}
                 }
